@@ -117,6 +117,9 @@ def parse_operations(
                 # Parse responses
                 resps: List[IRResponse] = []
                 for sc, rn_node in cast(Mapping[str, Any], node_op.get("responses", {})).items():
+                    # YAML reads an unquoted status code (`200:`) as an int; it is the same key as "200"
+                    if isinstance(sc, int) and not isinstance(sc, bool):
+                        sc = str(sc)
                     if (
                         isinstance(rn_node, Mapping)
                         and "$ref" in rn_node
